@@ -263,6 +263,25 @@ def r_feeder_hook(e, R):
         wn = effect_nodes(e, f, wake)
         R.check(bool(wn), "R-FEEDER-HOOK", f"{f.short}: wakes the manager", f.short, "thread_wakeup.wakeup()", "no wake-up after freeing a slot",
                 e.loc(f, f.node))
+        # everything the hook removes unconditionally must already be there when the item reaches the feeder:
+        # the dispatch registers the id as running BEFORE the put on the call queue
+        if rm:
+            for q2 in a.manager_funcs:
+                df = e.prog.funcs[q2]
+                dg = e.cfg(df)
+                puts = [n for n in dg.nodes for c in calls_in(n) if e.receiver_objs(df, c, ("put", "put_nowait")) & a.callq and c.args
+                        and not (isinstance(c.args[0], ast.Constant) and c.args[0].value is None)]
+                if not puts:
+                    continue
+                ins = [n for n in dg.nodes if n.kind == "stmt" and n.ast is not None and (
+                    (isinstance(n.ast, ast.AugAssign) and e.objs(df, n.ast.target) & a.running) or
+                    any(e.receiver_objs(df, c, ("append", "extend", "insert")) & a.running for c in calls_in(n)))]
+                R.check(bool(ins) and all(any(dg.dominates(i, p) and i is not p for i in ins) for p in puts), "R-FEEDER-HOOK",
+                        f"{df.short}: the id is registered as running before the item is handed to the call queue", df.short,
+                        "running_work_items += [work_id] before call_queue.put(...)",
+                        "the work id is added to the running list after the put: if the feeder thread fails to pickle the item first, the error "
+                        "hook's unconditional remove() raises in the feeder thread before the future is failed and before the manager is woken "
+                        "(the future never resolves)", e.loc(df, puts[0].ast))
         # other objects are delegated to the base hook
         sup = [c for c in func_nodes(f) if isinstance(c, ast.Call) and isinstance(c.func, ast.Attribute) and isinstance(c.func.value, ast.Call)
                and isinstance(c.func.value.func, ast.Name) and c.func.value.func.id == "super"]
